@@ -130,9 +130,39 @@ def check(an, rep, tier):
             'rows must be taken with stride idx_many[mode] and the values '
             'folded with width idx_many[mode]', line=fsv.node.lineno,
             file=fsv.module.path)
+    # every mode index is fitted against ITS OWN rows: inside the loop over
+    # the mode index both operands of the least-squares solve vary with the
+    # iteration (the loop variable or a name re-bound in the loop body)
+    for lp in _ast.walk(fsv.node):
+        if not isinstance(lp, (_ast.For, _ast.While)):
+            continue
+        inner = [x for x in _ast.walk(lp) if x is not lp and
+                 isinstance(x, (_ast.For, _ast.While))]
+        calls = [c for c in _ast.walk(lp) if isinstance(c, _ast.Call) and
+                 (an.prog.dotted(c.func) or '').endswith('lstsq') and
+                 not any(c in list(_ast.walk(i_)) for i_ in inner)]
+        if not calls:
+            continue
+        variant = {n_.id for n_ in _ast.walk(lp)
+                   if isinstance(n_, _ast.Name) and
+                   isinstance(n_.ctx, _ast.Store)}
+        for c in calls:
+            ops = list(c.args[:2])
+            inv = [_ast.unparse(a) for a in ops
+                   if not any(isinstance(x, _ast.Name) and x.id in variant
+                              for x in _ast.walk(a))]
+            rep.add('S-consumer', 'svd.svd_incomplete', 'per-index row '
+                    'blocks of %s' % _ast.unparse(c)[:60],
+                    'ok' if not inv else 'violation',
+                    '' if not inv else 'inside the loop over the mode index '
+                    'the operand %s of the least-squares solve does not '
+                    'change with the iteration: every slice of the core is '
+                    'fitted against the same rows' % inv,
+                    line=c.lineno, file=fsv.module.path)
     from .. import rules_formula as _F
     _F.check_rank_value(an, rep, 'svd.matrix_skeleton')
     rep.floor('F-rank', 1, 'rank formula of the skeleton helper')
     rep.floor('S-ndim', 1, 'lstsq operand')
     rep.floor('S-ret', 2, 'svd_incomplete results')
     rep.floor('S-producer', 2, 'sample_tt layouts')
+    rep.floor('S-consumer', 1, 'stride / width of the consumer')
